@@ -108,6 +108,13 @@ FUNCS = [
     ("C15", "dataiter/list_of_dicts.py", "ListOfDicts.__mul__", [], "ListOfDicts_mul"),
     ("C15", "dataiter/list_of_dicts.py", "ListOfDicts.__rmul__", [], "ListOfDicts_rmul"),
     ("C15", "dataiter/list_of_dicts.py", "ListOfDicts.__getitem__", [], "ListOfDicts_getitem"),
+    ("C14", "dataiter/data_frame.py", "DataFrame.from_json", [], "DataFrame_from_json"),
+    ("C14", "dataiter/data_frame.py", "DataFrame.read_json", [], "DataFrame_read_json"),
+    ("C14", "dataiter/data_frame.py", "DataFrame.read_csv", [], "DataFrame_read_csv"),
+    ("C14", "dataiter/data_frame.py", "DataFrame.read_parquet", [], "DataFrame_read_parquet"),
+    ("C14", "dataiter/list_of_dicts.py", "ListOfDicts.from_json", [], "ListOfDicts_from_json"),
+    ("C14", "dataiter/list_of_dicts.py", "ListOfDicts.read_json", [], "ListOfDicts_read_json"),
+    ("C14", "dataiter/list_of_dicts.py", "ListOfDicts.read_csv", [], "ListOfDicts_read_csv"),
     ("C11", "dataiter/vector.py", "Vector.sort", [], "Vector_sort"),
     ("C11", "dataiter/vector.py", "Vector.rank", [], "Vector_rank"),
     ("C11", "dataiter/vector.py", "Vector.unique", [], "Vector_unique"),
